@@ -12,6 +12,8 @@ import (
 	"golang.org/x/tools/go/ssa"
 )
 
+type deadlockSignal struct{ why string }
+
 type intrinsic func(e *Exec, fn *ssa.Function, args []Value, caller *Frame) (Value, *GoPanic)
 
 var intrinsics = map[string]intrinsic{}
@@ -417,8 +419,102 @@ func init() {
 
 	// ---- sync / runtime ----
 	nop := func(e *Exec, fn *ssa.Function, args []Value, caller *Frame) (Value, *GoPanic) { return nil, nil }
-	for _, n := range []string{"(*sync.Mutex).Lock", "(*sync.Mutex).Unlock", "(*sync.RWMutex).Lock", "(*sync.RWMutex).Unlock",
-		"(*sync.RWMutex).RLock", "(*sync.RWMutex).RUnlock", "runtime.LockOSThread", "runtime.UnlockOSThread", "runtime.Gosched",
+	// mutexes: holder state per mutex on this (sequential) path; acquiring a lock the path already holds is a
+	// self-deadlock (sync mutexes are not reentrant) and is signalled to zz.Within as "blocks forever"
+	lockOp := func(kind string) intrinsic {
+		return func(e *Exec, fn *ssa.Function, args []Value, caller *Frame) (Value, *GoPanic) {
+			key, ok := concreteKey(args[0])
+			if !ok {
+				e.unsupported("mutex with symbolic address")
+			}
+			if e.locks == nil {
+				e.locks = map[string]*[2]int{}
+			}
+			st := e.locks[key]
+			if st == nil {
+				st = &[2]int{}
+				e.locks[key] = st
+			}
+			switch kind {
+			case "Lock":
+				if st[0] > 0 || st[1] > 0 {
+					panic(deadlockSignal{"Lock on a mutex this call sequence already holds (" + fn.String() + ")"})
+				}
+				st[0] = 1
+			case "Unlock":
+				st[0] = 0
+			case "RLock":
+				if st[0] > 0 {
+					panic(deadlockSignal{"RLock on a mutex this call sequence holds for writing"})
+				}
+				st[1]++
+			case "RUnlock":
+				if st[1] > 0 {
+					st[1]--
+				}
+			}
+			return nil, nil
+		}
+	}
+	intrinsics["(*sync.Mutex).Lock"] = lockOp("Lock")
+	intrinsics["(*sync.Mutex).Unlock"] = lockOp("Unlock")
+	intrinsics["(*sync.RWMutex).Lock"] = lockOp("Lock")
+	intrinsics["(*sync.RWMutex).Unlock"] = lockOp("Unlock")
+	intrinsics["(*sync.RWMutex).RLock"] = lockOp("RLock")
+	intrinsics["(*sync.RWMutex).RUnlock"] = lockOp("RUnlock")
+	reg("Within", func(e *Exec, fn *ssa.Function, args []Value, caller *Frame) (res Value, gp *GoPanic) {
+		defer func() {
+			if r := recover(); r != nil {
+				if d, ok := r.(deadlockSignal); ok {
+					e.w.stats.noteReach("deadlock:" + d.why)
+					res, gp = e.ctx.False, nil
+					return
+				}
+				panic(r)
+			}
+		}()
+		_, p := e.callValue(args[1], nil, nil, caller, nil)
+		if p != nil {
+			return nil, p
+		}
+		return e.ctx.True, nil
+	})
+	reg("IgnoreGo", func(e *Exec, fn *ssa.Function, args []Value, caller *Frame) (Value, *GoPanic) {
+		e.ignoreGo = true
+		return nil, nil
+	})
+	reg("Oracle", func(e *Exec, fn *ssa.Function, args []Value, caller *Frame) (Value, *GoPanic) {
+		if e.oracles == nil {
+			e.oracles = map[string]*Term{}
+		}
+		e.oracles[concStr(e, args[0], "oracle name")] = args[1].(*Term)
+		return nil, nil
+	})
+	// process start and pipes (midicatdrv): the helper process is not modelled, only whether it can be started
+	intrinsics["os/exec.Command"] = func(e *Exec, fn *ssa.Function, args []Value, caller *Frame) (Value, *GoPanic) {
+		t := fn.Signature.Results().At(0).Type().(*types.Pointer).Elem()
+		return Ptr{obj: e.newObject(e.zero(t), t, "exec.Cmd")}, nil
+	}
+	intrinsics["(*os/exec.Cmd).Start"] = func(e *Exec, fn *ssa.Function, args []Value, caller *Frame) (Value, *GoPanic) {
+		fails, ok := e.oracles["process-cannot-be-started"]
+		if !ok {
+			e.unsupported("exec.Cmd.Start without a zz.Oracle(\"process-cannot-be-started\", ...)")
+		}
+		if e.branch(fails, nil) {
+			return e.newError("exec: \"midicat\": executable file not found in $PATH"), nil
+		}
+		return IfaceV{}, nil
+	}
+	intrinsics["io.Pipe"] = func(e *Exec, fn *ssa.Function, args []Value, caller *Frame) (Value, *GoPanic) {
+		rt := fn.Signature.Results().At(0).Type().(*types.Pointer).Elem()
+		wt := fn.Signature.Results().At(1).Type().(*types.Pointer).Elem()
+		return TupleV{Ptr{obj: e.newObject(PoisonV{"pipe"}, rt, "io.PipeReader")}, Ptr{obj: e.newObject(PoisonV{"pipe"}, wt, "io.PipeWriter")}}, nil
+	}
+	nilErr := func(e *Exec, fn *ssa.Function, args []Value, caller *Frame) (Value, *GoPanic) { return IfaceV{}, nil }
+	intrinsics["(*io.PipeReader).Close"] = nilErr
+	intrinsics["(*io.PipeWriter).Close"] = nilErr
+	intrinsics["(*os.Process).Kill"] = nilErr
+	for _, n := range []string{"runtime.LockOSThread", "runtime.UnlockOSThread", "runtime.Gosched",
 		"runtime.GC", "(*sync.Pool).Put", "(*sync.WaitGroup).Add", "(*sync.WaitGroup).Done", "(*sync.WaitGroup).Wait"} {
 		intrinsics[n] = nop
 	}
